@@ -212,3 +212,108 @@ func sortedKeys(m map[string]bool) []string {
 }
 
 func join(ss []string) string { return strings.Join(ss, ", ") }
+
+// allFoundShape decides the shape of a "for every x in A there is an equal y in
+// B" function over two slice parameters: an outer loop over parameter a, a
+// per-iteration boolean flag initialised to false, an inner loop over parameter
+// b that sets the flag only behind X.Equal(Y) of the two loop variables, after
+// the inner loop `if !flag { return onMissing }` on every such path, no break
+// out of the outer loop, and `return !onMissing` only after the outer loop ran
+// to exhaustion. It returns "" when the shape holds, else a reason.
+func allFoundShape(f *chk.Fn, a, b int, onMissing bool) string {
+	g := f.Graph()
+	outer := f.RangeLoops(isParamIdx(f, a))
+	inner := f.RangeLoops(isParamIdx(f, b))
+	if len(outer) != 1 || len(inner) != 1 || !chk.InBody(outer[0], inner[0]) {
+		return "no nested loops over the two address lists"
+	}
+	pv, cv := rangeVal(f, outer[0]), rangeVal(f, inner[0])
+	var flag types.Object
+	for _, s := range g.Find(f.IsAssignPat("H", "true")) {
+		if g.Dominated(s, g.GPat(true, "P.Equal(C)", chk.H("P", pv), chk.H("C", cv))) || g.Dominated(s, g.GPat(true, "C.Equal(P)", chk.H("P", pv), chk.H("C", cv))) {
+			flag = f.ObjOf(s.Node.(*ast.AssignStmt).Lhs[0])
+		} else {
+			return "the found-flag is set without an Equal test of the two loop variables"
+		}
+	}
+	if flag == nil {
+		return "no found-flag set behind X.Equal(Y)"
+	}
+	decl := g.Find(func(n ast.Node) bool {
+		as, ok := n.(*ast.AssignStmt)
+		return ok && as.Tok.String() == ":=" && len(as.Lhs) == 1 && f.ObjOf(as.Lhs[0]) == flag && f.IsConstBool(as.Rhs[0], false) && chk.InBody(outer[0], n) && !chk.InBody(inner[0], n)
+	})
+	if len(decl) != 1 {
+		return "the found-flag is not reset to false for every element of the outer list"
+	}
+	es := g.EdgesImplying(chk.GBool(false, f.IsObj(flag)))
+	if len(es) == 0 {
+		return "the found-flag is never tested"
+	}
+	isRet := func(val bool) func(ast.Node) bool {
+		return func(n ast.Node) bool {
+			rs, ok := n.(*ast.ReturnStmt)
+			return ok && len(rs.Results) == 1 && f.IsConstBool(rs.Results[0], val)
+		}
+	}
+	for _, e := range es {
+		if g.BranchAlways(e, isRet(onMissing)).Found {
+			return "an element without a match does not lead to the `missing` result"
+		}
+	}
+	// every outer iteration reaches the flag test after the inner loop
+	loopB, bodyB, doneB := g.RangeBlocks(outer[0])
+	for _, bl := range g.Blocks {
+		for _, s := range bl.Succs {
+			if s == doneB && bl != loopB {
+				return "the outer loop can be left early"
+			}
+		}
+	}
+	testBlocks := map[*cfgBlock]bool{}
+	for _, e := range es {
+		testBlocks[e.B] = true
+	}
+	seen := map[*cfgBlock]bool{}
+	var skips func(bl *cfgBlock) bool
+	skips = func(bl *cfgBlock) bool {
+		if testBlocks[bl] {
+			return false
+		}
+		for _, s := range bl.Succs {
+			if s == loopB {
+				return true
+			}
+			if !seen[s] {
+				seen[s] = true
+				if skips(s) {
+					return true
+				}
+			}
+		}
+		return false
+	}
+	if bodyB != nil && skips(bodyB) {
+		return "an outer iteration can complete without testing the found-flag"
+	}
+	for _, rt := range g.Returns() {
+		res := retResults(rt)
+		if len(res) != 1 {
+			return "unexpected return arity"
+		}
+		switch {
+		case f.IsConstBool(res[0], onMissing):
+			// inside the outer loop behind !flag, or a pre-check before the loops
+			if chk.InBody(outer[0], rt.Node) && !g.Dominated(rt, chk.GBool(false, f.IsObj(flag))) {
+				return "the `missing` result is returned for an element that was found"
+			}
+		case f.IsConstBool(res[0], !onMissing):
+			if !g.AfterLoop(rt, outer[0]) {
+				return "the `all found` result is returned before every element was examined"
+			}
+		default:
+			return "a return that is not a boolean constant"
+		}
+	}
+	return ""
+}
